@@ -51,6 +51,16 @@ func DecodeAVP(data []byte, application uint32, dictionary *dict.Parser) (*AVP, 
 // DecodeFromBytes decodes the bytes of a Diameter AVP.
 // It uses the given application id and dictionary for decoding the bytes.
 func (a *AVP) DecodeFromBytes(data []byte, application uint32, dictionary *dict.Parser) error {
+	return a.decodeFromBytes(data, application, dictionary, 0)
+}
+
+// maxGroupedDepth is the deepest nesting of Grouped AVPs accepted by the
+// decoder. Every level costs a stack frame, so input nested without bound
+// (8 bytes per level, up to 2M levels in one message) would exhaust the
+// goroutine stack, which is fatal to the process.
+const maxGroupedDepth = 10000
+
+func (a *AVP) decodeFromBytes(data []byte, application uint32, dictionary *dict.Parser, depth int) error {
 	if len(data) < 8 {
 		return fmt.Errorf("Not enough data to decode AVP header: %d bytes", len(data))
 	}
@@ -98,9 +108,12 @@ func (a *AVP) DecodeFromBytes(data []byte, application uint32, dictionary *dict.
 	}
 	// Handle grouped AVPs.
 	if a.Data.Type() == datatype.GroupedType {
-		a.Data, err = DecodeGrouped(
+		if depth >= maxGroupedDepth {
+			return fmt.Errorf("Grouped AVPs nested deeper than %d levels", maxGroupedDepth)
+		}
+		a.Data, err = decodeGrouped(
 			a.Data.(datatype.Grouped),
-			application, dictionary,
+			application, dictionary, depth+1,
 		)
 		if err != nil {
 			return err
